@@ -1089,11 +1089,11 @@ Definition tfor_inv (st : tfor_state) : Prop :=
 
 Ltac destruct_ds Ds :=
   match type of Ds with
-  | diag_ok (_ ?x) = true => destruct_scrut x
+  | diag_ok (_ (match ?y with _ => _ end)) = true => destruct_scrut y
   end.
 Ltac ds_prefix Ds :=
-  cbn [ofor_ds tfor_ds] in Ds; repeat rewrite diag_ok_app in Ds;
-  repeat (apply andb_true_iff in Ds as [Ds _]); exact Ds.
+  cbn [ofor_ds tfor_ds] in Ds |- *; repeat rewrite diag_ok_app in Ds;
+  repeat match type of Ds with (_ && _ = true) => apply andb_true_iff in Ds as [Ds _] end; exact Ds.
 Ltac ds_dead Ds :=
   cbn [ofor_ds tfor_ds] in Ds; repeat rewrite diag_ok_app in Ds;
   rewrite ?diag_ok_cons_err, ?diag_ok_cons_unsup in Ds; rewrite ?andb_false_r in Ds; discriminate Ds.
@@ -1160,16 +1160,17 @@ Proof.
                 diag_ok (ofor_ds (stepf st kv)) = true -> ofor_inv st -> ofor_inv (stepf st kv)).
       { intros [[[[vals groups] mks] known] sds] kv Hin Gcv Ds [Kn [Fv Fg]]. subst known.
         unfold stepf in Ds |- *. simpl in Okk.
+        set (cc := child_ctx c ((if str_eqb kvar [] || str_eqb kvar vvar then [] else [(kvar, fst kv)]) ++ [(vvar, snd kv)])) in *.
         assert (Key : forall mks0 sds0,
           diag_ok (ofor_ds
-            (let '(kraw, kds) := ev_ f (child_ctx c ((if str_eqb kvar [] || str_eqb kvar vvar then [] else [(kvar, fst kv)]) ++ [(vvar, snd kv)])) anon ke in
+            (let '(kraw, kds) := ev_ f cc anon ke in
              if is_null kraw then (vals, groups, mks0, false, (sds0 ++ kds) ++ [derr S_InvalidObjKey []])
              else if negb (is_known kraw) then (vals, groups, mks0 ++ [marks_of kraw], false, sds0 ++ kds)
              else match conv kraw TStr with
                   | COk kc =>
                       match fst (unmark kc) with
                       | VStr ks =>
-                          let '(v1, vds) := ev_ f (child_ctx c ((if str_eqb kvar [] || str_eqb kvar vvar then [] else [(kvar, fst kv)]) ++ [(vvar, snd kv)])) anon vale in
+                          let '(v1, vds) := ev_ f cc anon vale in
                           if group then (vals, assoc_set ks (match assoc_get ks groups with Some l => l | None => [] end ++ [v1]) groups,
                                          mks0 ++ [marks_of kraw], true, (sds0 ++ kds) ++ vds)
                           else match assoc_get ks vals with
@@ -1183,14 +1184,14 @@ Proof.
                   | CUnsupported => (vals, groups, mks0 ++ [marks_of kraw], false, (sds0 ++ kds) ++ [dunsupported])
                   end)) = true ->
           ofor_inv
-            (let '(kraw, kds) := ev_ f (child_ctx c ((if str_eqb kvar [] || str_eqb kvar vvar then [] else [(kvar, fst kv)]) ++ [(vvar, snd kv)])) anon ke in
+            (let '(kraw, kds) := ev_ f cc anon ke in
              if is_null kraw then (vals, groups, mks0, false, (sds0 ++ kds) ++ [derr S_InvalidObjKey []])
              else if negb (is_known kraw) then (vals, groups, mks0 ++ [marks_of kraw], false, sds0 ++ kds)
              else match conv kraw TStr with
                   | COk kc =>
                       match fst (unmark kc) with
                       | VStr ks =>
-                          let '(v1, vds) := ev_ f (child_ctx c ((if str_eqb kvar [] || str_eqb kvar vvar then [] else [(kvar, fst kv)]) ++ [(vvar, snd kv)])) anon vale in
+                          let '(v1, vds) := ev_ f cc anon vale in
                           if group then (vals, assoc_set ks (match assoc_get ks groups with Some l => l | None => [] end ++ [v1]) groups,
                                          mks0 ++ [marks_of kraw], true, (sds0 ++ kds) ++ vds)
                           else match assoc_get ks vals with
@@ -1204,13 +1205,13 @@ Proof.
                   | CUnsupported => (vals, groups, mks0 ++ [marks_of kraw], false, (sds0 ++ kds) ++ [dunsupported])
                   end)).
         { intros mks0 sds0 Dk.
-          destruct (ev_ f _ anon ke) as [kraw kds] eqn:Ek'.
+          destruct (ev_ f cc anon ke) as [kraw kds] eqn:Ek'.
           destruct (is_null kraw); [ds_dead Dk|].
           destruct (negb (is_known kraw)) eqn:Kk.
           { exfalso. ds_parts Dk. rewrite (good_is_known _ (IHel kv ke kraw kds Hin Gcv Okk Ek' Dp)) in Kk. discriminate. }
           destruct (conv kraw TStr) as [kc| |]; [|ds_dead Dk|ds_dead Dk].
           destruct (fst (unmark kc)); try (ds_dead Dk).
-          destruct (ev_ f _ anon vale) as [v1 vds] eqn:Ev'.
+          destruct (ev_ f cc anon vale) as [v1 vds] eqn:Ev'.
           destruct group.
           - ds_parts Dk. pose proof (IHel kv vale v1 vds Hin Gcv Okv Ev' Dp) as Gv1.
             cbn [ofor_inv]. split; [reflexivity|]. split; [exact Fv|].
@@ -1223,7 +1224,7 @@ Proof.
             cbn [ofor_inv]. split; [reflexivity|]. split; [|exact Fg]. apply assoc_set_good; assumption. }
         destruct conde as [ce|]; [|apply Key; exact Ds].
         simpl in Okcond.
-        destruct (ev_ f _ anon ce) as [inc cds] eqn:Ec'.
+        destruct (ev_ f cc anon ce) as [inc cds] eqn:Ec'.
         destruct (is_null inc); [ds_dead Ds|].
         destruct (conv inc TBool) as [b| |] eqn:Ecb; [|ds_dead Ds|ds_dead Ds].
         destruct (negb (is_known b)) eqn:Kb.
@@ -1238,7 +1239,7 @@ Proof.
       destruct (good_unmark _ _ _ (G0 (Hds D1)) Uc) as [Gcv _].
       destruct (fold_inv stepf ofor_ds ofor_inv Hmono (elements cv)) with (st := st0) as [_ Pf]; [|exact Dfin|].
       + intros st it Hin Ds Pst. apply (Hpres st it Hin Gcv Ds Pst).
-      + rewrite Ef in Pf. destruct Pf as [Kn [Fv Fg]]; [cbn [ofor_inv]; auto|].
+      + rewrite Ef in Pf. destruct Pf as [Kn [Fv Fg]]; [unfold st0; cbn [ofor_inv]; repeat split; constructor|].
         subst known. cbn [negb] in Ek. injection Ek as <- <-. apply good_with_marks. apply good_VObj.
         destruct group; [|exact Fv].
         apply Forall_forall. intros p Hp. apply in_map_iff in Hp as [[k' l'] [<- Hin]]. simpl.
@@ -1254,19 +1255,20 @@ Proof.
                 diag_ok (tfor_ds (stepf st kv)) = true -> tfor_inv st -> tfor_inv (stepf st kv)).
       { intros [[[vals mks] known] sds] kv Hin Gcv Ds [Kn Fv]. subst known.
         unfold stepf in Ds |- *.
+        set (cc := child_ctx c ((if str_eqb kvar [] || str_eqb kvar vvar then [] else [(kvar, fst kv)]) ++ [(vvar, snd kv)])) in *.
         assert (Val : forall mks0 sds0,
           diag_ok (tfor_ds
-            (let '(v1, vds) := ev_ f (child_ctx c ((if str_eqb kvar [] || str_eqb kvar vvar then [] else [(kvar, fst kv)]) ++ [(vvar, snd kv)])) anon vale in
+            (let '(v1, vds) := ev_ f cc anon vale in
              (vals ++ [v1], mks0, true, sds0 ++ vds))) = true ->
           tfor_inv
-            (let '(v1, vds) := ev_ f (child_ctx c ((if str_eqb kvar [] || str_eqb kvar vvar then [] else [(kvar, fst kv)]) ++ [(vvar, snd kv)])) anon vale in
+            (let '(v1, vds) := ev_ f cc anon vale in
              (vals ++ [v1], mks0, true, sds0 ++ vds))).
-        { intros mks0 sds0 Dk. destruct (ev_ f _ anon vale) as [v1 vds] eqn:Ev'.
+        { intros mks0 sds0 Dk. destruct (ev_ f cc anon vale) as [v1 vds] eqn:Ev'.
           ds_parts Dk. pose proof (IHel kv vale v1 vds Hin Gcv Okv Ev' Dp) as Gv1.
           cbn [tfor_inv]. split; [reflexivity|]. apply Forall_app. split; [exact Fv|constructor; [exact Gv1|constructor]]. }
         destruct conde as [ce|]; [|apply Val; exact Ds].
         simpl in Okcond.
-        destruct (ev_ f _ anon ce) as [inc cds] eqn:Ec'.
+        destruct (ev_ f cc anon ce) as [inc cds] eqn:Ec'.
         destruct (is_null inc); [ds_dead Ds|].
         destruct (negb (is_known inc)) eqn:Ki.
         { exfalso. ds_parts Ds. rewrite (good_is_known _ (IHel kv ce inc cds Hin Gcv Okcond Ec' Dp)) in Ki. discriminate. }
@@ -1280,7 +1282,7 @@ Proof.
       destruct (good_unmark _ _ _ (G0 (Hds D1)) Uc) as [Gcv _].
       destruct (fold_inv stepf tfor_ds tfor_inv Hmono (elements cv)) with (st := st0) as [_ Pf]; [|exact Dfin|].
       + intros st it Hin Ds Pst. apply (Hpres st it Hin Gcv Ds Pst).
-      + rewrite Ef in Pf. destruct Pf as [Kn Fv]; [cbn [tfor_inv]; auto|].
+      + rewrite Ef in Pf. destruct Pf as [Kn Fv]; [unfold st0; cbn [tfor_inv]; repeat split; constructor|].
         subst known. cbn [negb] in Ek. injection Ek as <- <-. apply good_with_marks. apply good_VTuple. exact Fv. }
   unfold probe in E. destruct conde as [ce|].
   - destruct (ev_ f _ anon ce) as [r cds].
@@ -1293,3 +1295,147 @@ Proof.
       intros Dx. rewrite diag_ok_app in Dx. apply andb_true_iff in Dx as [Dx _]. exact Dx.
   - apply (HK [] ds0); [auto|exact E].
 Qed.
+
+(* ---- the theorem ---------------------------------------------------------------------------- *)
+Theorem kiko_all : forall f, KI f.
+Proof.
+  induction f as [|f IH]; intros c anon e v ds C A Ok E D.
+  - simpl in E. injection E as <- <-. discriminate.
+  - destruct e.
+    + (* ELit *) cbn [eval_with] in E. injection E as <- <-. exact Ok.
+    + (* EScopeTrav *) cbn [eval_with] in E. simpl in Ok. apply (traverse_abs_good c root steps v ds C Ok E D).
+    + apply (kiko_reltrav f e steps IH c anon v ds C A Ok E D).
+    + apply (kiko_call f name args expand IH c anon v ds C A Ok E D).
+    + apply (kiko_cond f e1 e2 e3 IH c anon v ds C A Ok E D).
+    + apply (kiko_index f e1 e2 IH c anon v ds C A Ok E D).
+    + apply (kiko_tuple f es IH c anon v ds C A Ok E D).
+    + apply (kiko_obj f items IH c anon v ds C A Ok E D).
+    + apply (kiko_objkey f e force IH c anon v ds C A Ok E D).
+    + apply (kiko_for f kv vv e1 key e2 cond group IH c anon v ds C A Ok E D).
+    + apply (kiko_splat f e1 e2 IH c anon v ds C A Ok E D).
+    + (* EAnon *) cbn [eval_with] in E. simpl in Ok. destruct anon as [a|]; [|discriminate Ok].
+      injection E as <- <-. apply (A a eq_refl).
+    + apply (kiko_bin f op e1 e2 IH c anon v ds C A Ok E D).
+    + apply (kiko_un f op e IH c anon v ds C A Ok E D).
+    + apply (kiko_tmpl f parts IH c anon v ds C A Ok E D).
+    + apply (kiko_join f e IH c anon v ds C A Ok E D).
+    + (* EWrap *) cbn [eval_with] in E. simpl in Ok. apply (IH c anon e v ds C A Ok E D).
+    + (* EParen *) cbn [eval_with] in E. simpl in Ok. apply (IH c anon e v ds C A Ok E D).
+Qed.
+
+(* [mwf]: mark-normal form (no VMark directly inside a VMark), the invariant stated in Values.v. *)
+Definition val_ok (v : val) : Prop := wholly_known v = true /\ mwf v = true.
+
+Theorem known_in_known_out : forall fuel c anon e v ds,
+  ctx_good c -> anon_good anon -> expr_ok (is_some anon) e = true ->
+  eval fuel c anon e = (v, ds) -> has_errors ds = false -> has_unsupported ds = false ->
+  wholly_known v = true.
+Proof.
+  intros fuel c anon e v ds C A Ok E He Hu.
+  assert (G : good v = true) by (apply (kiko_all fuel c anon e v ds C A Ok E (diag_ok_intro ds He Hu))).
+  apply good_iff in G. tauto.
+Qed.
+
+(* the mark-normal form is preserved as well *)
+Theorem known_in_known_out_mwf : forall fuel c anon e v ds,
+  ctx_good c -> anon_good anon -> expr_ok (is_some anon) e = true ->
+  eval fuel c anon e = (v, ds) -> has_errors ds = false -> has_unsupported ds = false ->
+  mwf v = true.
+Proof.
+  intros fuel c anon e v ds C A Ok E He Hu.
+  assert (G : good v = true) by (apply (kiko_all fuel c anon e v ds C A Ok E (diag_ok_intro ds He Hu))).
+  apply good_iff in G. tauto.
+Qed.
+
+(* hcl.Expression.Value: no anonymous symbol bound *)
+Corollary value_known_in_known_out : forall c e v ds,
+  ctx_good c -> expr_ok false e = true ->
+  value c e = (v, ds) -> has_errors ds = false -> has_unsupported ds = false -> wholly_known v = true.
+Proof.
+  intros c e v ds C Ok E He Hu. unfold value in E.
+  apply (known_in_known_out (S (expr_size e)) c None e v ds C); try assumption. intros a Ea. discriminate.
+Qed.
+
+(* ---- the six functions of the harness satisfy the contract ------------------------------------ *)
+Lemma fn_upper_known : fn_known fn_upper.
+Proof.
+  split; [|split].
+  - intros args rt v F E. simpl in E. destruct args as [|[] [|]]; try discriminate. injection E as <-. reflexivity.
+  - repeat constructor; intros H; discriminate.
+  - intros p E. discriminate.
+Qed.
+
+Lemma fn_sum_known : fn_known fn_sum.
+Proof.
+  split; [|split].
+  - intros args rt v F E. simpl in E.
+    assert (Q : forall args acc, fold_left (fun acc a =>
+                  match acc, a with
+                  | OOk (VNum x), VNum y => match num_add x y with Some n => OOk (VNum n) | None => OErr OEOther end
+                  | OOk _, _ => OUnsupported
+                  | o, _ => o
+                  end) args acc = OOk v -> (forall w, acc = OOk w -> good w = true) -> good v = true).
+    { clear. induction args as [|a r IH]; intros acc E H; simpl in E; [apply (H v E)|].
+      apply (IH _ E). intros w Ew.
+      destruct acc as [[]| |]; try discriminate; destruct a; try discriminate.
+      destruct (num_add n n0); inversion Ew. reflexivity. }
+    apply (Q args _ E). intros w Ew. inversion Ew. reflexivity.
+  - constructor.
+  - intros p E. injection E as <-. intros H. discriminate.
+Qed.
+
+Lemma fn_first_known : fn_known fn_first.
+Proof.
+  split; [|split].
+  - intros args rt v F E. simpl in E. destruct args as [|a r]; [discriminate|]. injection E as <-.
+    inversion F; assumption.
+  - repeat constructor; intros _ _; reflexivity.
+  - intros p E. injection E as <-. intros _ _. reflexivity.
+Qed.
+
+Lemma fn_fail_known : fn_known fn_fail.
+Proof.
+  split; [|split].
+  - intros args rt v F E. discriminate.
+  - repeat constructor; intros H; discriminate.
+  - intros p E. discriminate.
+Qed.
+
+Lemma fn_isnull_known : fn_known fn_isnull.
+Proof.
+  split; [|split].
+  - intros args rt v F E. simpl in E. destruct args as [|a [|]]; try discriminate. injection E as <-. reflexivity.
+  - repeat constructor; intros _ _; reflexivity.
+  - intros p E. discriminate.
+Qed.
+
+Lemma fn_pair_known : fn_known fn_pair.
+Proof.
+  split; [|split].
+  - intros args rt v F E. simpl in E. destruct args as [|a [|b [|]]]; try discriminate. injection E as <-.
+    inversion F as [|? ? Ga F']; subst. inversion F' as [|? ? Gb _]; subst.
+    apply good_VTuple. repeat constructor; assumption.
+  - repeat constructor; intros H; discriminate.
+  - intros p E. discriminate.
+Qed.
+
+(* ---- what the hypotheses exclude (witnesses, by computation) ----------------------------------- *)
+(* an anonymous symbol outside a splat evaluates to DynamicVal without any diagnostic
+   (AnonSymbolExpr.Value with no value set); the parser never builds that *)
+Lemma anon_unbound_unknown : value [] EAnon = (dyn_val, []).
+Proof. reflexivity. Qed.
+
+(* TemplateJoinExpr over a null tuple: Go panics ("TemplateJoinExpr got null tuple"), the model
+   answers an unknown string without a diagnostic: the panic is not modelled *)
+Lemma join_null_not_modelled : value [] (EJoin (ELit (VNull TDyn))) = (VUnk TStr rf_none, []).
+Proof. reflexivity. Qed.
+
+(* function.Call: a literal null given to a parameter of dynamic type that allows null but not
+   dynamically typed arguments makes the call return DynamicVal without error *)
+Definition fn_null_nodyn : fn :=
+  mkFn [mkParam [118] TDyn true false false false] None (fun _ => Some TBool)
+       (fun args _ => match args with [a] => OOk (VBool (is_null a)) | _ => OUnsupported end).
+Lemma fn_null_dyn_refuted :
+  value [mkFrame (Some []) (Some [([102], fn_null_nodyn)])] (ECall [102] [ELit (VNull TDyn)] false)
+  = (dyn_val, []).
+Proof. vm_compute. reflexivity. Qed.
